@@ -101,6 +101,25 @@ theorem C07_witness_staleHandle : ¬ C07_Statement := by
   revert this
   decide
 
+/-- F-C07-12: /d/e is made durable (`sync_dir /d/e` enters it into /d), but /d itself never is (its
+    parent is not synced).  The crash keeps the orphan keyed by its path; a new /d created and made
+    durable after the restart contains the old /d/e -/
+def hist12 : List (Op × Ora) :=
+  q [.mkdir d, .mkdir (d ++ [101]), .syncDir (d ++ [101]), .crash, .mkdir d, .syncDir []]
+
+theorem C07_witness_orphanResurfaces : ¬ C07_Statement := by
+  intro h
+  have := h {} hist12 {} (d ++ [101]) (by decide)
+  revert this
+  decide
+
+/-- what the two sides say: the implementation shows the old directory inside the new one -/
+theorem witness_F_C07_12 :
+    viewOfFx Fixes.committed (runStFx Fixes.committed {} St.init (hist12 ++ [(Op.crash, ({} : Ora))])).fs
+      (d ++ [101]) = .dir [] ∧
+    sView (sRunStFx Fixes.committed {} Spec.init (hist12 ++ [(Op.crash, ({} : Ora))])).l (d ++ [101]) = .none ∧
+    matchesFinding 12 (hist12.map fun x => x.1) = true := by decide
+
 /-! ### repaired findings: `witness_F_…` / `C07_witness_…` on the code before the repair,
     `fixed_F_…` on the committed model -/
 
